@@ -1,6 +1,885 @@
-//! C40 — not implemented yet.
+//! C40 — CLI output formats round-trip the result.
+//!
+//! Code under test: `src/cli/output.rs` (`OutputFormatter` CSV/JSON writers).
+//! The file lives in the *binary* crate, so it is compiled into the harness
+//! (it depends only on arrow and chrono). THE PATH BELOW IS THE ONLY LINE THAT
+//! DIFFERS BETWEEN A SANDBOX AND /verif.
+//!
+//! Input domain: whatever `Vec<RecordBatch>` a query returns — here batches of
+//! Utf8/LargeUtf8/Int32/Int64/UInt64/Float32/Float64/Boolean/Decimal128 columns
+//! (unique column names), split into 0..3 batches.
+//!
+//! Oracles
+//!  * CSV: the `csv` crate (RFC 4180, `flexible(false)`, no header handling) AND
+//!    an independent strict RFC 4180 record parser both return, for the header
+//!    and for every row, exactly the cell text: the string itself for strings,
+//!    the decimal spelling for integers, `true`/`false`, the empty field for
+//!    NULL (as the writer documents), and for floats a field that parses to the
+//!    same f64. (A one-column row whose text is empty is an empty line, which
+//!    the `csv` crate skips by design; only the strict parser judges those.)
+//!  * JSON: `serde_json` parses the output to an array with one object per row,
+//!    keys = the column names, values equal to the cells: strings exactly,
+//!    integers exactly, floats numerically (1e-15 relative: serde_json's default
+//!    float parser is not always correctly rounded), non-finite floats as null
+//!    or a string (JSON has no spelling for them), NULL as null, decimals as a
+//!    string/number denoting exactly value/10^scale.
 use super::Property;
 
+// The formatter source (binary crate) compiled into the harness. THIS PATH IS THE ONLY LINE THAT DIFFERS
+// BETWEEN A SANDBOX COPY AND /verif (there: "/repo/src/cli/output.rs").
+#[path = "/repo/src/cli/output.rs"]
+#[allow(dead_code, clippy::all)]
+mod output;
+
+use crate::runner::*;
+use arrow::array::*;
+use arrow::datatypes::{DataType, Field, Schema};
+use arrow::record_batch::RecordBatch;
+use output::{OutputFormat, OutputFormatter};
+use proptest::prelude::*;
+use serde::{Deserialize, Deserializer, Serialize, Serializer};
+use serde_json::Value as J;
+use std::sync::Arc;
+
+#[derive(Clone, Copy, Debug)]
+pub struct Fl(pub f64);
+impl Serialize for Fl {
+    fn serialize<S: Serializer>(&self, s: S) -> Result<S::Ok, S::Error> {
+        s.serialize_str(&format!("{:?}", self.0))
+    }
+}
+impl<'de> Deserialize<'de> for Fl {
+    fn deserialize<D: Deserializer<'de>>(d: D) -> Result<Fl, D::Error> {
+        let s = String::deserialize(d)?;
+        s.parse::<f64>().map(Fl).map_err(serde::de::Error::custom)
+    }
+}
+
+#[derive(Clone, Debug, Serialize, Deserialize)]
+pub enum ColData {
+    Utf8(Vec<Option<String>>),
+    LargeUtf8(Vec<Option<String>>),
+    I32(Vec<Option<i32>>),
+    I64(Vec<Option<i64>>),
+    U64(Vec<Option<u64>>),
+    F32(Vec<Option<Fl>>),
+    F64(Vec<Option<Fl>>),
+    Bool(Vec<Option<bool>>),
+    /// Decimal128(38, scale), unscaled values
+    Dec(u8, Vec<Option<i64>>),
+}
+impl ColData {
+    fn len(&self) -> usize {
+        match self {
+            ColData::Utf8(v) | ColData::LargeUtf8(v) => v.len(),
+            ColData::I32(v) => v.len(),
+            ColData::I64(v) => v.len(),
+            ColData::U64(v) => v.len(),
+            ColData::F32(v) | ColData::F64(v) => v.len(),
+            ColData::Bool(v) => v.len(),
+            ColData::Dec(_, v) => v.len(),
+        }
+    }
+    fn build(&self) -> ArrayRef {
+        match self {
+            ColData::Utf8(v) => Arc::new(StringArray::from(v.clone())),
+            ColData::LargeUtf8(v) => Arc::new(LargeStringArray::from(v.clone())),
+            ColData::I32(v) => Arc::new(Int32Array::from(v.clone())),
+            ColData::I64(v) => Arc::new(Int64Array::from(v.clone())),
+            ColData::U64(v) => Arc::new(UInt64Array::from(v.clone())),
+            ColData::F32(v) => Arc::new(Float32Array::from(v.iter().map(|x| x.map(|f| f.0 as f32)).collect::<Vec<_>>())),
+            ColData::F64(v) => Arc::new(Float64Array::from(v.iter().map(|x| x.map(|f| f.0)).collect::<Vec<_>>())),
+            ColData::Bool(v) => Arc::new(BooleanArray::from(v.clone())),
+            ColData::Dec(scale, v) => Arc::new(
+                Decimal128Array::from(v.iter().map(|x| x.map(|i| i as i128)).collect::<Vec<_>>())
+                    .with_precision_and_scale(38, *scale as i8)
+                    .expect("decimal"),
+            ),
+        }
+    }
+    fn is_string(&self) -> bool {
+        matches!(self, ColData::Utf8(_) | ColData::LargeUtf8(_))
+    }
+}
+
+#[derive(Clone, Debug, Serialize, Deserialize)]
+pub struct Col {
+    pub name: String,
+    pub data: ColData,
+}
+
+#[derive(Clone, Debug, Serialize, Deserialize)]
+pub struct OutCase {
+    pub cols: Vec<Col>,
+    /// batch boundaries; `no_batches` = the result has no batch at all
+    pub cuts: Vec<usize>,
+    pub no_batches: bool,
+}
+
+impl OutCase {
+    fn rows(&self) -> usize {
+        self.cols.first().map(|c| c.data.len()).unwrap_or(0)
+    }
+    fn well_formed(&self) -> bool {
+        let n = self.rows();
+        !self.cols.is_empty()
+            && self.cols.iter().all(|c| c.data.len() == n)
+            && {
+                let mut names: Vec<&str> = self.cols.iter().map(|c| c.name.as_str()).collect();
+                names.sort();
+                names.windows(2).all(|w| w[0] != w[1])
+            }
+            && self.cuts.windows(2).all(|w| w[0] < w[1])
+            && self.cuts.iter().all(|c| *c > 0 && *c < n.max(1))
+            && self.cols.iter().all(|c| match &c.data {
+                ColData::Dec(s, _) => *s <= 18,
+                _ => true,
+            })
+    }
+    fn batches(&self) -> Vec<RecordBatch> {
+        if self.no_batches {
+            return vec![];
+        }
+        let fields: Vec<Field> = self
+            .cols
+            .iter()
+            .map(|c| {
+                let a = c.data.build();
+                Field::new(c.name.clone(), a.data_type().clone(), true)
+            })
+            .collect();
+        let schema = Arc::new(Schema::new(fields));
+        let whole = RecordBatch::try_new(schema, self.cols.iter().map(|c| c.data.build()).collect()).expect("batch");
+        let n = self.rows();
+        let mut b = vec![0usize];
+        b.extend(self.cuts.iter().copied());
+        b.push(n);
+        b.windows(2).map(|w| whole.slice(w[0], w[1] - w[0])).collect()
+    }
+}
+
+/// what a CSV field must be
+#[derive(Clone, Debug)]
+enum CsvWant {
+    Text(String),
+    /// a field that parses to this f64 (any NaN for NaN)
+    Float(f64),
+    /// not asserted (decimal display is not a CSV matter)
+    Any,
+}
+
+fn csv_want(c: &ColData, i: usize) -> CsvWant {
+    fn t<T: ToString>(v: &Option<T>) -> CsvWant {
+        CsvWant::Text(v.as_ref().map(|x| x.to_string()).unwrap_or_default())
+    }
+    match c {
+        ColData::Utf8(v) | ColData::LargeUtf8(v) => CsvWant::Text(v[i].clone().unwrap_or_default()),
+        ColData::I32(v) => t(&v[i]),
+        ColData::I64(v) => t(&v[i]),
+        ColData::U64(v) => t(&v[i]),
+        ColData::Bool(v) => t(&v[i]),
+        ColData::F32(v) => v[i].map(|f| CsvWant::Float(f.0 as f32 as f64)).unwrap_or(CsvWant::Text(String::new())),
+        ColData::F64(v) => v[i].map(|f| CsvWant::Float(f.0)).unwrap_or(CsvWant::Text(String::new())),
+        ColData::Dec(_, v) => {
+            if v[i].is_none() {
+                CsvWant::Text(String::new())
+            } else {
+                CsvWant::Any
+            }
+        }
+    }
+}
+
+fn csv_field_ok(want: &CsvWant, got: &str, f32col: bool) -> bool {
+    match want {
+        CsvWant::Text(t) => t == got,
+        CsvWant::Any => true,
+        CsvWant::Float(f) => {
+            if f32col {
+                match got.parse::<f32>() {
+                    Ok(g) => (g.is_nan() && f.is_nan()) || g as f64 == *f,
+                    Err(_) => false,
+                }
+            } else {
+                match got.parse::<f64>() {
+                    Ok(g) => (g.is_nan() && f.is_nan()) || g == *f,
+                    Err(_) => false,
+                }
+            }
+        }
+    }
+}
+
+/// Strict RFC 4180 reader: records end with LF or CRLF (the last may lack it),
+/// a field is either quoted (`""` = one quote, must be followed by `,` or the
+/// record end) or free of `"`, `,`, CR and LF. `allow_bare_cr` switches to the
+/// writer's own dialect — only LF ends a record and CR is ordinary data in an
+/// unquoted field — and is used only to look behind an open finding.
+fn rfc4180(text: &str, allow_bare_cr: bool) -> Result<Vec<Vec<String>>, String> {
+    let ch: Vec<char> = text.chars().collect();
+    let mut i = 0;
+    let mut out = vec![];
+    if ch.is_empty() {
+        return Ok(out);
+    }
+    loop {
+        // one record
+        let mut rec = vec![];
+        loop {
+            // one field
+            let mut f = String::new();
+            if i < ch.len() && ch[i] == '"' {
+                i += 1;
+                loop {
+                    if i >= ch.len() {
+                        return Err("unterminated quoted field".into());
+                    }
+                    if ch[i] == '"' {
+                        if i + 1 < ch.len() && ch[i + 1] == '"' {
+                            f.push('"');
+                            i += 2;
+                        } else {
+                            i += 1;
+                            break;
+                        }
+                    } else {
+                        f.push(ch[i]);
+                        i += 1;
+                    }
+                }
+                if i < ch.len() && !(ch[i] == ',' || ch[i] == '\n' || (ch[i] == '\r' && i + 1 < ch.len() && ch[i + 1] == '\n')) {
+                    return Err(format!("text after the closing quote of a field (record {})", out.len()));
+                }
+            } else {
+                while i < ch.len() && ch[i] != ',' && ch[i] != '\n' {
+                    if ch[i] == '"' {
+                        return Err(format!("quote inside an unquoted field (record {})", out.len()));
+                    }
+                    if ch[i] == '\r' && !allow_bare_cr {
+                        if i + 1 < ch.len() && ch[i + 1] == '\n' {
+                            break;
+                        }
+                        return Err(format!("bare CR inside an unquoted field (record {})", out.len()));
+                    }
+                    f.push(ch[i]);
+                    i += 1;
+                }
+            }
+            rec.push(f);
+            if i < ch.len() && ch[i] == ',' {
+                i += 1;
+                continue;
+            }
+            break;
+        }
+        out.push(rec);
+        // record end
+        if i < ch.len() && ch[i] == '\r' && !allow_bare_cr {
+            i += 1;
+        }
+        if i < ch.len() && ch[i] == '\n' {
+            i += 1;
+        }
+        if i >= ch.len() {
+            return Ok(out);
+        }
+    }
+}
+
+fn csv_crate(text: &str) -> Result<Vec<Vec<String>>, String> {
+    let mut rd = csv::ReaderBuilder::new().has_headers(false).flexible(false).from_reader(text.as_bytes());
+    let mut out = vec![];
+    for r in rd.records() {
+        let r = r.map_err(|e| e.to_string())?;
+        out.push(r.iter().map(|s| s.to_string()).collect());
+    }
+    Ok(out)
+}
+
+fn needs_csv_quote(s: &str) -> bool {
+    s.contains(',') || s.contains('"') || s.contains('\n') || s.contains('\r')
+}
+
+fn clip(s: &str) -> String {
+    let mut t: String = s.chars().take(600).collect();
+    if t.len() < s.len() {
+        t.push_str("…");
+    }
+    format!("{:?}", t)
+}
+
+// ---------------------------------------------------------------------------
+// generators
+// ---------------------------------------------------------------------------
+
+fn text(special: u32) -> BoxedStrategy<String> {
+    // Line breaks and other control characters are (for JSON) an open finding, a bare CR is one for CSV:
+    // quotes/commas/backslashes carry most of the "hot" weight so that most non-trivial cases stay clear of them.
+    let tok = prop_oneof![
+        20 => "[a-zA-Z0-9 ]{1,4}",
+        special => prop_oneof![Just(","), Just("\""), Just("\"\""), Just(",\""), Just("'"), Just(";"), Just(" "), Just("\\"), Just("\\n"), Just("\\\""), Just("/")].prop_map(String::from),
+        special / 4 + 1 => prop_oneof![Just("\n"), Just("\r\n"), Just("\n\n")].prop_map(String::from),
+        special / 8 + 1 => Just("\r".to_string()),
+        special / 4 + 1 => prop_oneof![Just("\t"), Just("\u{0}"), Just("\u{1}"), Just("\u{8}"), Just("\u{b}"), Just("\u{c}"), Just("\u{1b}"), Just("\u{1f}"), Just("\u{7f}")].prop_map(String::from),
+        special / 2 + 1 => prop_oneof![Just("é"), Just("ß"), Just("日本"), Just("😀"), Just("\u{2028}"), Just("\u{feff}"), Just("\u{85}"), Just("ñ́")].prop_map(String::from),
+        2 => prop_oneof![Just("NULL"), Just("null"), Just("NaN"), Just("true"), Just("1.5"), Just("-0")].prop_map(String::from),
+    ];
+    prop_oneof![1 => Just(String::new()), 10 => proptest::collection::vec(tok, 1..5).prop_map(|v| v.concat())].boxed()
+}
+
+fn opt<T: std::fmt::Debug + Clone + 'static>(s: BoxedStrategy<T>, n: usize) -> BoxedStrategy<Vec<Option<T>>> {
+    proptest::collection::vec(prop_oneof![6 => s.prop_map(Some), 1 => Just(None)], n).boxed()
+}
+
+fn f64s(nonfinite: u32) -> BoxedStrategy<Fl> {
+    prop_oneof![
+        6 => (-2000i32..2000).prop_map(|k| Fl(k as f64 / 8.0)),
+        // |x| < 1e300: serde_json's default number parser reports "number out of range" for the
+        // (valid) positional spelling of values next to f64::MAX — an oracle limit, not an engine matter
+        3 => any::<f64>().prop_map(|x| Fl(if x.is_finite() && x.abs() < 1e300 { x } else { 0.5 })),
+        2 => prop_oneof![Just(0.1), Just(-0.0), Just(1e21), Just(1e-7), Just(1e299), Just(f64::MIN_POSITIVE), Just(5e-324), Just(1.0e15), Just(123456789.125)].prop_map(Fl),
+        nonfinite => prop_oneof![Just(f64::NAN), Just(f64::INFINITY), Just(f64::NEG_INFINITY)].prop_map(Fl),
+    ]
+    .boxed()
+}
+fn f32s(nonfinite: u32) -> BoxedStrategy<Fl> {
+    prop_oneof![
+        6 => (-2000i32..2000).prop_map(|k| Fl(k as f64 / 8.0)),
+        3 => any::<f32>().prop_map(|x| Fl(if x.is_finite() { x as f64 } else { 0.5 })),
+        2 => prop_oneof![Just(0.1f32), Just(-0.0), Just(1e21), Just(f32::MAX), Just(f32::MIN_POSITIVE)].prop_map(|x| Fl(x as f64)),
+        nonfinite => prop_oneof![Just(f64::NAN), Just(f64::INFINITY), Just(f64::NEG_INFINITY)].prop_map(Fl),
+    ]
+    .boxed()
+}
+
+fn col_data(n: usize) -> BoxedStrategy<ColData> {
+    prop_oneof![
+        // strings: mostly with hot characters, the NT of this property
+        8 => opt(text(8), n).prop_map(ColData::Utf8),
+        2 => opt(text(0), n).prop_map(ColData::Utf8),
+        1 => opt(text(8), n).prop_map(ColData::LargeUtf8),
+        2 => opt(prop_oneof![4 => -5i64..6, 1 => Just(i64::MAX), 1 => Just(i64::MIN), 2 => any::<i64>()].boxed(), n).prop_map(ColData::I64),
+        1 => opt(any::<i32>().boxed(), n).prop_map(ColData::I32),
+        1 => opt(prop_oneof![3 => 0u64..5, 1 => Just(u64::MAX), 1 => any::<u64>()].boxed(), n).prop_map(ColData::U64),
+        // non-finite floats are an open finding in the JSON writer: keep them in ~1/4 of the float columns
+        3 => opt(f64s(0), n).prop_map(ColData::F64),
+        1 => opt(f64s(3), n).prop_map(ColData::F64),
+        1 => opt(f32s(0), n).prop_map(ColData::F32),
+        1 => opt(any::<bool>().boxed(), n).prop_map(ColData::Bool),
+        1 => (0u8..7, opt(prop_oneof![3 => -2000i64..2000, 1 => any::<i64>()].boxed(), n)).prop_map(|(s, v)| ColData::Dec(s, v)),
+    ]
+    .boxed()
+}
+
+fn col_name() -> BoxedStrategy<String> {
+    prop_oneof![
+        30 => "[a-z][a-z0-9_]{0,6}",
+        3 => prop_oneof![Just("SUM(x)"), Just("count(*)"), Just("total price"), Just("prix_é"), Just("a.b"), Just("x + 1"), Just("'lit'")].prop_map(String::from),
+        // names that need CSV quoting / JSON escaping (open findings): rare
+        1 => prop_oneof![Just("a,b"), Just("concat(a, b)"), Just("say \"hi\""), Just("line\nbreak"), Just("back\\slash"), Just("tab\there"), Just("cr\rname")].prop_map(String::from),
+    ]
+    .boxed()
+}
+
+fn case_strategy(tier: Tier) -> BoxedStrategy<OutCase> {
+    let max_rows = tier.pick(8usize, 40);
+    (1usize..5, prop_oneof![1 => Just(0usize), 3 => Just(1usize), 8 => 2..=max_rows])
+        .prop_flat_map(|(nc, nr)| {
+            (
+                proptest::collection::vec((col_name(), col_data(nr)), nc),
+                proptest::collection::vec(any::<u16>(), 0..3),
+                prop_oneof![30 => Just(false), 1 => Just(true)],
+            )
+        })
+        .prop_map(|(cols, cutsel, no_batches)| {
+            let mut seen = std::collections::BTreeSet::new();
+            let cols: Vec<Col> = cols
+                .into_iter()
+                .enumerate()
+                .map(|(i, (mut name, data))| {
+                    if !seen.insert(name.clone()) {
+                        name = format!("{}_{}", name, i);
+                        seen.insert(name.clone());
+                    }
+                    Col { name, data }
+                })
+                .collect();
+            let n = cols[0].data.len();
+            let mut cuts: Vec<usize> = if n >= 2 { cutsel.iter().map(|s| 1 + crate::data::pick_idx(*s, n - 1)).collect() } else { vec![] };
+            cuts.sort();
+            cuts.dedup();
+            OutCase { cols, cuts, no_batches }
+        })
+        .boxed()
+}
+
+fn hot_char(c: char) -> bool {
+    c == '"' || c == '\n' || c == '\r' || (c as u32) < 0x20 || c == '\u{7f}'
+}
+
+fn labels(c: &OutCase, obs: &mut Obs) -> bool {
+    let mut hot = false;
+    let mut ctrl = false;
+    let mut nonascii = false;
+    for col in &c.cols {
+        if let ColData::Utf8(v) | ColData::LargeUtf8(v) = &col.data {
+            for s in v.iter().flatten() {
+                hot |= s.chars().any(hot_char);
+                ctrl |= s.chars().any(|c| (c as u32) < 0x20);
+                nonascii |= !s.is_ascii();
+            }
+        }
+    }
+    if hot {
+        obs.label("cell:quote/linebreak/control");
+    }
+    if ctrl {
+        obs.label("cell:control-char");
+    }
+    if nonascii {
+        obs.label("cell:non-ascii");
+    }
+    if c.cols.iter().any(|c| needs_csv_quote(&c.name)) {
+        obs.label("name:needs-csv-quote");
+    }
+    if c.cuts.len() > 0 {
+        obs.label("multi-batch");
+    }
+    if c.no_batches {
+        obs.label("no-batches");
+    }
+    obs.label(format!("cols:{}", c.cols.len()));
+    hot
+}
+
+// ---------------------------------------------------------------------------
+// check 1: CSV
+// ---------------------------------------------------------------------------
+
+pub struct CsvRoundTrip;
+impl Check for CsvRoundTrip {
+    type Case = OutCase;
+    fn name(&self) -> &'static str {
+        "csv_roundtrip"
+    }
+    fn rule(&self) -> &'static str {
+        ">=1 row and a string cell contains a quote, a line break (CR/LF) or a control character"
+    }
+    fn cases(&self, tier: Tier) -> u32 {
+        tier.pick(4000, 1_500_000)
+    }
+    fn strategy(&self, tier: Tier) -> BoxedStrategy<OutCase> {
+        case_strategy(tier)
+    }
+    fn test(&self, c: &OutCase, obs: &mut Obs) -> Verdict {
+        if !c.well_formed() {
+            return Verdict::Discard("malformed case".into());
+        }
+        let hot = labels(c, obs);
+        let batches = c.batches();
+        let out = OutputFormatter::new(OutputFormat::Csv).format_to_string(&batches);
+        if c.no_batches {
+            // nothing is displayed for a result without batches
+            return if out.is_empty() { Verdict::Pass } else { Verdict::Fail(format!("no batches but CSV output {}", clip(&out))) };
+        }
+        let n = c.rows();
+        let nc = c.cols.len();
+        obs.nontrivial(n >= 1 && hot);
+        let names: Vec<String> = c.cols.iter().map(|c| c.name.clone()).collect();
+        // judge a parsed document (header + rows); `skip_empty_single` = the csv crate drops empty lines
+        let judge = |recs: &[Vec<String>], with_header: bool, skip_empty_single: bool| -> Result<(), String> {
+            let mut k = 0usize;
+            if with_header {
+                match recs.first() {
+                    Some(h) if *h == names => {}
+                    other => return Err(format!("header parsed as {:?}, column names are {:?}", other, names)),
+                }
+                k = 1;
+            }
+            for r in 0..n {
+                let wants: Vec<CsvWant> = c.cols.iter().map(|col| csv_want(&col.data, r)).collect();
+                if skip_empty_single && nc == 1 && matches!(&wants[0], CsvWant::Text(t) if t.is_empty()) {
+                    continue;
+                }
+                let Some(rec) = recs.get(k) else {
+                    return Err(format!("row {} missing: only {} records parsed", r, recs.len()));
+                };
+                k += 1;
+                if rec.len() != nc {
+                    return Err(format!("row {} parsed into {} fields, the result has {} columns: {:?}", r, rec.len(), nc, rec));
+                }
+                for (j, w) in wants.iter().enumerate() {
+                    if !csv_field_ok(w, &rec[j], matches!(c.cols[j].data, ColData::F32(_))) {
+                        return Err(format!("row {} column {:?}: parsed {:?}, the cell is {:?}", r, names[j], rec[j], w));
+                    }
+                }
+            }
+            if k != recs.len() {
+                return Err(format!("{} extra record(s) parsed, e.g. {:?}", recs.len() - k, recs[k]));
+            }
+            Ok(())
+        };
+        let full = |text: &str, with_header: bool, lenient_cr: bool| -> Result<(), String> {
+            let strict = rfc4180(text, lenient_cr).map_err(|e| format!("not RFC 4180: {}", e))?;
+            judge(&strict, with_header, false).map_err(|e| format!("[strict RFC 4180 reader] {}", e))?;
+            if !lenient_cr {
+                let lib = csv_crate(text).map_err(|e| format!("csv crate: {}", e))?;
+                judge(&lib, with_header, true).map_err(|e| format!("[csv crate] {}", e))?;
+            }
+            Ok(())
+        };
+        let first = match full(&out, true, false) {
+            Ok(()) => return Verdict::Pass,
+            Err(e) => e,
+        };
+        let msg = format!("CSV output does not parse back to the result: {}\n  output = {}", first, clip(&out));
+        // ---- look behind the open findings -------------------------------
+        // (a) header written unquoted: replace exactly that raw header line by the correctly quoted one
+        //     and judge the document again
+        let raw_header = format!("{}\n", names.join(","));
+        let header_finding = names.iter().any(|s| needs_csv_quote(s)) && out.starts_with(&raw_header);
+        let repaired: String = if header_finding {
+            let q: Vec<String> = names
+                .iter()
+                .map(|s| if needs_csv_quote(s) { format!("\"{}\"", s.replace('"', "\"\"")) } else { s.clone() })
+                .collect();
+            format!("{}\n{}", q.join(","), &out[raw_header.len()..])
+        } else {
+            out.clone()
+        };
+        let body = repaired.as_str();
+        let with_header = true;
+        if header_finding {
+            if full(body, true, false).is_ok() {
+                obs.label("known:header-unquoted");
+                return Verdict::Known { id: "c40-csv-header-not-quoted".into(), msg };
+            }
+        }
+        // (b) a cell with a bare CR (and no `,`/`"`/LF) is written unquoted
+        let bare_cr_cell = c.cols.iter().any(|col| match &col.data {
+            ColData::Utf8(v) | ColData::LargeUtf8(v) => {
+                v.iter().flatten().any(|s| s.contains('\r') && !s.contains(',') && !s.contains('"') && !s.contains('\n'))
+            }
+            _ => false,
+        });
+        if bare_cr_cell && full(body, with_header, true).is_ok() {
+            obs.label("known:bare-cr-unquoted");
+            return Verdict::Known {
+                id: if header_finding { "c40-csv-header-not-quoted" } else { "c40-csv-bare-cr-not-quoted" }.into(),
+                msg,
+            };
+        }
+        Verdict::Fail(msg)
+    }
+}
+
+// ---------------------------------------------------------------------------
+// check 2: JSON
+// ---------------------------------------------------------------------------
+
+/// Exact decimal comparison: does `text` denote unscaled/10^scale ?
+fn decimal_text_is(text: &str, unscaled: i64, scale: u8) -> bool {
+    let (neg, body) = match text.strip_prefix('-') {
+        Some(b) => (true, b),
+        None => (false, text),
+    };
+    let (ip, fp) = match body.split_once('.') {
+        Some((a, b)) => (a, b),
+        None => (body, ""),
+    };
+    if ip.is_empty() || !ip.chars().all(|c| c.is_ascii_digit()) || !fp.chars().all(|c| c.is_ascii_digit()) {
+        return false;
+    }
+    if fp.len() > scale as usize && fp[scale as usize..].chars().any(|c| c != '0') {
+        return false;
+    }
+    let mut digits = String::from(ip);
+    let mut f = fp.to_string();
+    while f.len() < scale as usize {
+        f.push('0');
+    }
+    digits.push_str(&f[..scale as usize]);
+    let mag: i128 = match digits.parse() {
+        Ok(m) => m,
+        Err(_) => return false,
+    };
+    let got = if neg { -mag } else { mag };
+    got == unscaled as i128
+}
+
+/// Re-spell the two things JSON cannot contain but the writer emits raw (open
+/// findings), so that the rest of the document can still be judged: control
+/// characters inside string literals -> \u00XX; bare NaN/inf/-inf tokens -> null.
+fn sanitize_json(s: &str) -> (String, bool, bool) {
+    let ch: Vec<char> = s.chars().collect();
+    let mut out = String::with_capacity(s.len());
+    let (mut in_str, mut esc) = (false, false);
+    let (mut fixed_ctrl, mut fixed_nonfinite) = (false, false);
+    let mut i = 0;
+    while i < ch.len() {
+        let c = ch[i];
+        if in_str {
+            if esc {
+                esc = false;
+                out.push(c);
+            } else if c == '\\' {
+                esc = true;
+                out.push(c);
+            } else if c == '"' {
+                in_str = false;
+                out.push(c);
+            } else if (c as u32) < 0x20 {
+                fixed_ctrl = true;
+                out.push_str(&format!("\\u{:04x}", c as u32));
+            } else {
+                out.push(c);
+            }
+            i += 1;
+            continue;
+        }
+        if c == '"' {
+            in_str = true;
+            out.push(c);
+            i += 1;
+            continue;
+        }
+        let rest: String = ch[i..ch.len().min(i + 4)].iter().collect();
+        if rest.starts_with("NaN") {
+            out.push_str("null");
+            fixed_nonfinite = true;
+            i += 3;
+        } else if rest.starts_with("-inf") {
+            out.push_str("null");
+            fixed_nonfinite = true;
+            i += 4;
+        } else if rest.starts_with("inf") {
+            out.push_str("null");
+            fixed_nonfinite = true;
+            i += 3;
+        } else {
+            out.push(c);
+            i += 1;
+        }
+    }
+    (out, fixed_ctrl, fixed_nonfinite)
+}
+
+pub struct JsonRoundTrip;
+impl JsonRoundTrip {
+    /// Ok(()) or the first difference; `dec_sign` is set when the only kind of
+    /// difference seen so far is the decimal sign finding.
+    fn judge(c: &OutCase, doc: &J, dec_sign_only: &mut Option<String>) -> Result<(), String> {
+        let arr = doc.as_array().ok_or_else(|| "top level is not an array".to_string())?;
+        let n = if c.no_batches { 0 } else { c.rows() };
+        if arr.len() != n {
+            return Err(format!("{} objects in the array, {} rows in the result", arr.len(), n));
+        }
+        for (r, o) in arr.iter().enumerate() {
+            let o = o.as_object().ok_or_else(|| format!("row {} is not an object", r))?;
+            if o.len() != c.cols.len() {
+                return Err(format!("row {} has {} keys, the result has {} columns: {:?}", r, o.len(), c.cols.len(), o.keys().collect::<Vec<_>>()));
+            }
+            for col in &c.cols {
+                let v = o.get(&col.name).ok_or_else(|| format!("row {} has no key {:?} (keys {:?})", r, col.name, o.keys().collect::<Vec<_>>()))?;
+                let bad = |want: String| Err(format!("row {} column {:?}: JSON value {} but the cell is {}", r, col.name, v, want));
+                match &col.data {
+                    ColData::Utf8(d) | ColData::LargeUtf8(d) => match &d[r] {
+                        None if v.is_null() => {}
+                        Some(s) if v.as_str() == Some(s.as_str()) => {}
+                        w => return bad(format!("{:?}", w)),
+                    },
+                    ColData::I32(d) => {
+                        if d[r].map(|x| J::from(x)).unwrap_or(J::Null) != *v {
+                            return bad(format!("{:?}", d[r]));
+                        }
+                    }
+                    ColData::I64(d) => {
+                        if d[r].map(|x| J::from(x)).unwrap_or(J::Null) != *v {
+                            return bad(format!("{:?}", d[r]));
+                        }
+                    }
+                    ColData::U64(d) => {
+                        if d[r].map(|x| J::from(x)).unwrap_or(J::Null) != *v {
+                            return bad(format!("{:?}", d[r]));
+                        }
+                    }
+                    ColData::Bool(d) => {
+                        if d[r].map(|x| J::from(x)).unwrap_or(J::Null) != *v {
+                            return bad(format!("{:?}", d[r]));
+                        }
+                    }
+                    ColData::F32(d) | ColData::F64(d) => {
+                        let is32 = matches!(col.data, ColData::F32(_));
+                        match d[r] {
+                            None => {
+                                if !v.is_null() {
+                                    return bad("NULL".into());
+                                }
+                            }
+                            Some(Fl(f)) => {
+                                let f = if is32 { f as f32 as f64 } else { f };
+                                if !f.is_finite() {
+                                    // JSON has no spelling: null or a string are both faithful enough
+                                    if !(v.is_null() || v.is_string()) {
+                                        return bad(format!("{:?}", f));
+                                    }
+                                } else {
+                                    let ok = match v.as_f64() {
+                                        Some(g) => {
+                                            if is32 {
+                                                g as f32 as f64 == f || (g - f).abs() <= f.abs() * 1e-6
+                                            } else {
+                                                // (subnormals: one unit in the last place is 4.9e-324 absolute)
+                                                g == f || (g - f).abs() <= f.abs() * 1e-15 || (g - f).abs() <= 1e-322
+                                            }
+                                        }
+                                        None => false,
+                                    };
+                                    if !ok {
+                                        return bad(format!("{:?}", f));
+                                    }
+                                }
+                            }
+                        }
+                    }
+                    ColData::Dec(scale, d) => match d[r] {
+                        None => {
+                            if !v.is_null() {
+                                return bad("NULL".into());
+                            }
+                        }
+                        Some(u) => {
+                            let text = match v {
+                                J::String(s) => s.clone(),
+                                J::Number(x) => x.to_string(),
+                                _ => return bad(format!("{} / 10^{}", u, scale)),
+                            };
+                            if !decimal_text_is(&text, u, *scale) {
+                                // open finding: -0.xx printed without its sign
+                                let small_neg = u < 0 && *scale > 0 && (u.unsigned_abs() as u128) < 10u128.pow(*scale as u32);
+                                if small_neg && !text.starts_with('-') && decimal_text_is(&format!("-{}", text), u, *scale) {
+                                    dec_sign_only.get_or_insert(format!(
+                                        "row {} column {:?}: decimal {}e-{} printed as {:?}",
+                                        r, col.name, u, scale, text
+                                    ));
+                                    continue;
+                                }
+                                return bad(format!("{} / 10^{}", u, scale));
+                            }
+                        }
+                    },
+                }
+            }
+        }
+        Ok(())
+    }
+}
+impl Check for JsonRoundTrip {
+    type Case = OutCase;
+    fn name(&self) -> &'static str {
+        "json_roundtrip"
+    }
+    fn rule(&self) -> &'static str {
+        ">=1 row and a string cell contains a quote, a line break (CR/LF) or a control character"
+    }
+    fn cases(&self, tier: Tier) -> u32 {
+        tier.pick(4000, 1_500_000)
+    }
+    fn strategy(&self, tier: Tier) -> BoxedStrategy<OutCase> {
+        case_strategy(tier)
+    }
+    fn test(&self, c: &OutCase, obs: &mut Obs) -> Verdict {
+        if !c.well_formed() {
+            return Verdict::Discard("malformed case".into());
+        }
+        if c.cols.iter().any(|col| match &col.data {
+            ColData::F64(v) => v.iter().flatten().any(|f| f.0.is_finite() && f.0.abs() >= 1e300),
+            _ => false,
+        }) {
+            return Verdict::Discard("float beyond 1e300 (limit of the oracle's JSON number parser)".into());
+        }
+        let hot = labels(c, obs);
+        let batches = c.batches();
+        let out = OutputFormatter::new(OutputFormat::Json).format_to_string(&batches);
+        obs.nontrivial(!c.no_batches && c.rows() >= 1 && hot);
+        let mut dec_sign: Option<String> = None;
+        let direct = match serde_json::from_str::<J>(&out) {
+            Ok(doc) => Self::judge(c, &doc, &mut dec_sign).map_err(|e| format!("parsed document differs: {}", e)),
+            Err(e) => Err(format!("not JSON: {}", e)),
+        };
+        let first = match direct {
+            Ok(()) => match dec_sign {
+                None => return Verdict::Pass,
+                Some(m) => {
+                    obs.label("known:decimal-sign");
+                    return Verdict::Known {
+                        id: "c40-decimal-negative-fraction-loses-sign".into(),
+                        msg: format!("JSON output does not carry the cell's value: {}\n  output = {}", m, clip(&out)),
+                    };
+                }
+            },
+            Err(e) => e,
+        };
+        let msg = format!("JSON output does not parse back to the result: {}\n  output = {}", first, clip(&out));
+        // ---- look behind the open findings -------------------------------
+        // column names are written raw: a name with `"` or `\` cannot be repaired by the sanitizer
+        let name_breaks = c.cols.iter().any(|col| col.name.contains('"') || col.name.contains('\\'));
+        if name_breaks && !c.no_batches && c.rows() > 0 {
+            obs.label("known:field-name-unescaped");
+            return Verdict::Known { id: "c40-json-field-name-not-escaped".into(), msg };
+        }
+        let (fixed, ctrl, nonfinite) = sanitize_json(&out);
+        let mut behind = String::new();
+        if ctrl || nonfinite {
+            let mut ds = None;
+            let parsed = serde_json::from_str::<J>(&fixed);
+            match &parsed {
+                Err(e) => behind = format!("\n  (after re-spelling raw control characters / non-finite tokens: still not JSON: {})", e),
+                Ok(doc) => {
+                    if let Err(e) = Self::judge(c, doc, &mut ds) {
+                        behind = format!("\n  (after re-spelling raw control characters / non-finite tokens: {})", e);
+                    }
+                }
+            }
+            if let Ok(doc) = parsed {
+                if Self::judge(c, &doc, &mut ds).is_ok() {
+                    // which finding? control characters come from string cells / names, tokens from float cells
+                    let has_ctrl_input = c.cols.iter().any(|col| {
+                        col.name.chars().any(|ch| (ch as u32) < 0x20)
+                            || match &col.data {
+                                ColData::Utf8(v) | ColData::LargeUtf8(v) => v.iter().flatten().any(|s| s.chars().any(|ch| (ch as u32) < 0x20)),
+                                _ => false,
+                            }
+                    });
+                    let has_nonfinite_input = c.cols.iter().any(|col| match &col.data {
+                        ColData::F32(v) | ColData::F64(v) => v.iter().flatten().any(|f| !f.0.is_finite()),
+                        _ => false,
+                    });
+                    if ctrl && has_ctrl_input {
+                        obs.label("known:control-char-raw");
+                        return Verdict::Known { id: "c40-json-control-chars-not-escaped".into(), msg };
+                    }
+                    if nonfinite && has_nonfinite_input {
+                        obs.label("known:nonfinite-bare");
+                        return Verdict::Known { id: "c40-json-nonfinite-float-bare".into(), msg };
+                    }
+                }
+            }
+        }
+        Verdict::Fail(format!("{}{}", msg, behind))
+    }
+}
+
 pub fn property() -> Property {
-    Property { id: "C40", level: "exploration", assumptions: &[], checks: vec![] }
+    Property {
+        id: "C40",
+        level: "exploration",
+        assumptions: &[
+            "the formatter source src/cli/output.rs is compiled into the harness (it is in the binary crate); the REPL itself only calls OutputFormatter::print on the query's batches (main.rs), which is write() to stdout",
+            "column names are unique (a JSON object cannot carry two equal keys)",
+            "CSV: NULL is the empty field (documented by the writer); float cells are compared numerically, decimal cells are not asserted in CSV (their text is a display matter); a one-column row with empty text is an empty line, which only the strict RFC 4180 reader judges (the csv crate skips empty lines by design)",
+            "JSON: non-finite floats may be null or a string; finite floats are |x| < 1e300 and compared to 1e-15 relative (serde_json's default float parser is not always correctly rounded and rejects the positional spelling of values next to f64::MAX)",
+        ],
+        checks: vec![Box::new(CsvRoundTrip), Box::new(JsonRoundTrip)],
+    }
 }
